@@ -431,8 +431,9 @@ theorem explode_spec (data : List Row) (im : Nat) : ∀ (ids : List Nat) (us : L
       · obtain ⟨id', r', a, b, c, d⟩ := h2 x hx
         exact ⟨id', r', List.mem_cons_of_mem _ a, b, c, d⟩
 
-theorem explodeAll_spec (data : List Row) (im : Nat) : ∀ (cs : List Clu) (uss : List (List Clu)),
-    cs.mapM (fun c => explode data im c.ids) = some uss →
+theorem explodeAllF_spec (data : List Row) (im : Nat) (f : Clu → List Nat) (hf : ∀ c, (f c).Perm c.ids) :
+    ∀ (cs : List Clu) (uss : List (List Clu)),
+    cs.mapM (fun c => explode data im (f c)) = some uss →
     idsOf (uss.flatten : Multiset Clu) = idsOf (cs : Multiset Clu) ∧
     ∀ u ∈ uss.flatten, ∃ id r, im ≤ id ∧ data[id - im]? = some r ∧ u = single r id
   | [], uss, h => by
@@ -443,17 +444,23 @@ theorem explodeAll_spec (data : List Row) (im : Nat) : ∀ (cs : List Clu) (uss 
     obtain ⟨us, hus, uss', huss', hsome⟩ := h
     have := Option.some.inj hsome
     subst this
-    obtain ⟨h1, h2⟩ := explodeAll_spec data im cs uss' huss'
-    obtain ⟨g1, g2⟩ := explode_spec data im c.ids us hus
+    obtain ⟨h1, h2⟩ := explodeAllF_spec data im f hf cs uss' huss'
+    obtain ⟨g1, g2⟩ := explode_spec data im (f c) us hus
     refine ⟨?_, ?_⟩
     · rw [List.flatten_cons, ← Multiset.coe_add, idsOf_add, g1, h1, ← Multiset.cons_coe,
-        ← Multiset.singleton_add, idsOf_add, idsOf_singleton]
+        ← Multiset.singleton_add, idsOf_add, idsOf_singleton, Multiset.coe_eq_coe.mpr (hf c)]
     · intro x hx
       rw [List.flatten_cons] at hx
       rcases List.mem_append.mp hx with hx | hx
       · obtain ⟨id, r, _, b, c', d⟩ := g2 x hx
         exact ⟨id, r, b, c', d⟩
       · exact h2 x hx
+
+theorem explodeAll_spec (data : List Row) (im : Nat) (cs : List Clu) (uss : List (List Clu))
+    (h : cs.mapM (fun c => explode data im c.ids) = some uss) :
+    idsOf (uss.flatten : Multiset Clu) = idsOf (cs : Multiset Clu) ∧
+    ∀ u ∈ uss.flatten, ∃ id r, im ≤ id ∧ data[id - im]? = some r ∧ u = single r id :=
+  explodeAllF_spec data im (fun c => c.ids) (fun _ => List.Perm.refl _) cs uss h
 
 theorem addToU8_spec (groups : List (W × List Clu)) (us : List Clu) (hus : us ≠ [])
     (hnd : (groups.map (·.1)).Nodup) (hne : ∀ g ∈ groups, g.2 ≠ []) :
@@ -507,7 +514,7 @@ namespace BB
 variable (pol : Cfg → Policy)
 
 theorem refineGroups_spec (bfs : List Clu) (k : Nat) (data : List Row) (im : Nat)
-    (groups : List (W × List Clu)) (h : refineGroups bfs k data im = .ok groups) :
+    (srt : Bool) (groups : List (W × List Clu)) (h : refineGroups bfs k data im srt = .ok groups) :
     (∀ g ∈ groups, g.2 ≠ []) ∧ ∃ singles : List Clu,
       ((groups.flatMap (·.2) : List Clu) : Multiset Clu) = ((bfs.drop k : List Clu) : Multiset Clu) + (singles : Multiset Clu) ∧
       idsOf (singles : Multiset Clu) = idsOf ((bfs.take k : List Clu) : Multiset Clu) ∧
@@ -523,7 +530,8 @@ theorem refineGroups_spec (bfs : List Clu) (k : Nat) (data : List Row) (im : Nat
   · split at h
     · simp at h
     · rename_i uss huss
-      obtain ⟨h1, h2⟩ := explodeAll_spec data im (bfs.take k) uss huss
+      obtain ⟨h1, h2⟩ := explodeAllF_spec data im (fun c => if srt then c.ids.mergeSort (· ≤ ·) else c.ids)
+        (fun c => by split; exact List.mergeSort_perm _ _; exact List.Perm.refl _) (bfs.take k) uss huss
       have := Except.ok.inj h
       subst this
       split
@@ -547,11 +555,11 @@ theorem single_asUnit (r : Row) (id : Nat) : (single r id).asUnit = single r id 
 
 /-- `refine_inplace` preserves the invariant (given data rows of the tree's width) -/
 theorem refine_inv (hpol : ∀ cfg, (pol cfg).Valid) (F : Nat) (Q : Clu → Prop)
-    (hunit : ∀ c, Q c → Q c.asUnit) (e : Est) (hinv : EInv F Q e) (n : Int) (data : List Row) (im : Nat)
+    (hunit : ∀ c, Q c → Q c.asUnit) (e : Est) (hinv : EInv F Q e) (n : Int) (data : List Row) (im : Nat) (srt : Bool)
     (hdata : ∀ r ∈ data, r.length = F)
     (hqs : ∀ id r, im ≤ id → data[id - im]? = some r → Q (single r id))
     (hmerge : ∀ c s, Q c → Q s → (pol e.cfg).accept c s = true → Q (c.merge s)) :
-    EInv F Q (refine pol e n data im).1 := by
+    EInv F Q (refine pol e n data im srt).1 := by
   unfold refine
   split
   · exact hinv
@@ -569,7 +577,7 @@ theorem refine_inv (hpol : ∀ cfg, (pol cfg).Valid) (F : Nat) (Q : Clu → Prop
       · split
         · exact hinv0
         · rename_i groups hg
-          obtain ⟨hne, singles, hflat, hids, hsing⟩ := refineGroups_spec _ _ _ _ _ hg
+          obtain ⟨hne, singles, hflat, hids, hsing⟩ := refineGroups_spec _ _ _ _ _ _ hg
           have hsorted := sortedClus_coe e0.st hinv0.ok
           have hmemdrop : ∀ u ∈ e0.st.sortedClus.drop n.toNat, u ∈ e0.st.lclusM := fun u hu => by
             rw [← hsorted]; exact List.mem_of_mem_drop hu
@@ -621,7 +629,7 @@ def OpOK (F : Nat) (Q : Clu → Prop) (e : Est) : Op → Prop
       (e.st.isLeavesOnly = false → ∀ i (hi : i < rows.length), rows[i].length = F →
         Q (Clu.ofRow rows[i] (e.numFitted + i))) ∧
       MergeClosed pol Q e.cfg
-  | .refine _ data im => (∀ r ∈ data, r.length = F) ∧
+  | .refine _ data im _ => (∀ r ∈ data, r.length = F) ∧
       (∀ id r, im ≤ id → data[id - im]? = some r → Q (single r id)) ∧ MergeClosed pol Q e.cfg
   | .recluster it extra _ _ =>
       ∀ j, 1 ≤ j → j ≤ it → MergeClosed pol Q { e.cfg with thr := advThr extra j e.cfg.thr }
@@ -636,9 +644,9 @@ theorem step_inv (hpol : ∀ cfg, (pol cfg).Valid) (F : Nat) (Q : Clu → Prop)
   | fit rows labels =>
     obtain ⟨rfl, h0, hq, hm⟩ := hop
     exact fit_inv pol hpol F Q e hinv rows h0 hq hm
-  | refine n data im =>
+  | refine n data im srt =>
     obtain ⟨hd, hq, hm⟩ := hop
-    exact refine_inv pol hpol F Q hunit e hinv n data im hd hq hm
+    exact refine_inv pol hpol F Q hunit e hinv n data im srt hd hq hm
   | recluster it extra perms stop =>
     exact recluster_inv pol hpol F Q hunit e hinv it extra perms stop hop
   | setMerge c t th b =>
